@@ -162,3 +162,24 @@ Proof.
   destruct cl as [key|key v|[key|]|mx|key| | | |]; cbn [keyset_rule] in *;
     rewrite ?(has_R _ _ _ _ HR), ?(has_R _ _ _ _ HR'); exact K.
 Qed.
+
+(* the ring, read through the node keys, is sorted by last use: most recently used first *)
+From Coq Require Import Sorting.Sorted.
+
+Lemma ring_sorted_l : forall m t0 its g w, mono its -> lru_reach m t0 its g w ->
+  exists ids keys,
+    ring_ids (l_store (fst w)) true = Some ids /\
+    Forall2 (fun i k => exists nd, sget (l_store (fst w)) i = Some nd /\ n_key nd = Some k) ids keys /\
+    StronglySorted (younger (snd g)) keys /\
+    (forall k, In k keys <-> has (fst w) k = true).
+Proof.
+  intros m t0 its g w Hm Hr.
+  destruct (reach_inv _ _ _ _ _ Hm Hr) as [a [zs [HR [_ [_ [[HS _] _]]]]]].
+  destruct (ring_walks _ _ _ HR) as [W1 _].
+  exists (map fst zs), (map zkey zs). split; [exact W1|]. split; [|split].
+  - pose proof (R_nodes _ _ _ HR) as Hn. clear -Hn. induction zs as [|z zs IH]; cbn; [constructor|].
+    apply Forall_cons_iff in Hn. destruct Hn as [Hz Hn]. constructor; [|auto].
+    destruct (node_val _ z Hz) as [nd [Hg [Hk _]]]. eauto.
+  - rewrite (R_list _ _ _ HR) in HS. unfold akeys in HS. rewrite map_map in HS. exact HS.
+  - intros k. rewrite (has_R _ _ _ k HR), ahas_in, (R_list _ _ _ HR). unfold akeys. rewrite map_map. tauto.
+Qed.
